@@ -62,6 +62,7 @@ import nfc.llcp.llc
 import nfc.snep
 
 from vlib import deppair as dp
+from vlib import udpair
 from vlib import vsched
 from vlib import ref_llcp as ref
 from vlib.engine import Leg, Violation, derive_seed, unexpected
@@ -158,7 +159,9 @@ def execute(case):
         if case[side].get("acm") is not None:
             opts[side]["acm"] = case[side]["acm"]
     pair = dp.Pair((), seed=case.get("seed", 0), opts_i=opts["i"],
-                   opts_t=opts["t"], step_budget=150000)
+                   opts_t=opts["t"], step_budget=150000,
+                   medium=udpair.frontends if case.get("medium") == "udp"
+                   else None)
     o["busy"] = False
     try:
         s = pair.sched
@@ -926,6 +929,13 @@ def enum_pairwise(tier, seed):
             yield grid_case(row, rng, traffic=True)
 
 
+def enum_udp_grid(tier, seed):
+    """the grid over the library's real udp driver on both sides"""
+    for case in enum_grid(tier, seed) if tier == "quick" else \
+            itertools.islice(enum_grid(tier, seed), 0, None, 7):
+        yield dict(case, medium="udp")
+
+
 def enum_grid(tier, seed):
     rng = _random.Random(derive_seed(seed, PROPERTY, "grid", tier))
     if tier == "quick":
@@ -949,6 +959,14 @@ LEGS = [
              "remaining parameters (lto, agf, lsc, services, DID on every "
              "fifth point) are seeded; one MIU-sized datagram each way; "
              "non-trivial = sides differ in miu, lr or lto, or brs > 0."),
+    Leg("udp-grid", run=run, enum=enum_udp_grid, exhaustive=True,
+        shards_quick=4, shards_thorough=16,
+        rule="the grid of leg grid (quick: all 144 points, thorough: every "
+             "7th of the 23040) with the library's real udp driver on both "
+             "sides (vlib/udpair.py stands in for socket / select): the "
+             "driver's own ATR / PSL handling and bit rate switch decide "
+             "what is negotiated; same judge, the air log is the datagram "
+             "log."),
     Leg("pairwise", run=run, enum=enum_pairwise, exhaustive=False,
         shards_quick=8, shards_thorough=8,
         rule="greedy seeded pairwise-covering arrays (2 quick / 6 thorough) "
